@@ -306,6 +306,14 @@ def run(ctx):
         if why:
             violations.append({"sig": None, "replay_kind": "client_case", "case": cliprops.common.enc(c),
                                "what": f"policy {c['remediation']}: {why} (case {i})"})
+    # ... which rests on the progress marker staying with the parked event: the marker oracle of
+    # C07 (observation only) evaluated on every run under every policy
+    mk = cliprops.sub_oracles(ctx, res, {i: (True, False) for i in range(len(cases))}, ["c07_marker_case"], "c08mk", chunk=16)
+    for i, c in enumerate(cases):
+        if not mk[i].get("c07_marker_case", True):
+            violations.append({"sig": None, "replay_kind": "client_case", "case": cliprops.common.enc(c),
+                               "what": f"policy {c['remediation']}: a queue entry does not carry the progress marker its last raising "
+                                       f"handler invocation left (a partially applied event could then be merged) (case {i})"})
     # same history, same final data under the three policies
     for j in range(0, len(cases), 3):
         finals, lives = [], []
